@@ -1,0 +1,354 @@
+//go:build verif
+
+// Contracts for package datafile, read by /verif/govc (comment-only file; never compiled without
+// the build tag "verif", and even with it it contains no code).
+package datafile
+
+// ---------------------------------------------------------------------------------------------
+// Frame layout vocabulary (B = 32768 block size, H = 7 chunk header, C = B - H = 32761)
+// ---------------------------------------------------------------------------------------------
+
+//@ spec func padOf(bl int) int = bl + 7 >= 32768 ? 32768 - bl : 0
+//@ spec func startOff(bl int) int = bl + 7 >= 32768 ? 0 : bl
+//@ spec func chunks(total int, off0 int) int = total == 0 ? 0 : (total <= 32761 - off0 ? 1 : 1 + (total - (32761 - off0) + 32760) / 32761)
+//@ spec func written(j int, total int, off0 int) int = j == 0 ? 0 : min(total, (32761 - off0) + (j - 1) * 32761)
+//@ spec opaque func occupied(total int, bl int) int = padOf(bl) + 7 * chunks(total, startOff(bl)) + total
+//@ spec func le32(a intarr, i int) int = a[i] + 256 * a[i+1] + 65536 * a[i+2] + 16777216 * a[i+3]
+//@ spec func le16(a intarr, i int) int = a[i] + 256 * a[i+1]
+
+// ghost: which kind of file this is (the suffix it was opened with)
+//@ ghost field datafile.DataFile.kind int
+
+// ---------------------------------------------------------------------------------------------
+// Varint-encoded record layout over uninterpreted decoding functions
+//   vval/vn   : value and byte count binary.Varint returns for the bytes a[o..o+l)
+//   uvval/uvn : same for binary.Uvarint
+// ---------------------------------------------------------------------------------------------
+//@ spec func vval(a intarr, o int, l int) int
+//@ spec func vn(a intarr, o int, l int) int
+//@ spec func uvval(a intarr, o int, l int) int
+//@ spec func uvn(a intarr, o int, l int) int
+//@ spec func recN1(a intarr, o int, l int) int = vn(a, o + 1, l - 1)
+//@ spec func recK(a intarr, o int, l int) int = vval(a, o + 1, l - 1)
+//@ spec func recN2(a intarr, o int, l int) int = vn(a, o + 1 + recN1(a, o, l), l - 1 - recN1(a, o, l))
+//@ spec func recV(a intarr, o int, l int) int = vval(a, o + 1 + recN1(a, o, l), l - 1 - recN1(a, o, l))
+//@ spec func recN3(a intarr, o int, l int) int = uvn(a, o + 1 + recN1(a, o, l) + recN2(a, o, l), l - 1 - recN1(a, o, l) - recN2(a, o, l))
+//@ spec func recB(a intarr, o int, l int) int = uvval(a, o + 1 + recN1(a, o, l) + recN2(a, o, l), l - 1 - recN1(a, o, l) - recN2(a, o, l))
+// the bytes a[o..o+l) are the encoding of one log record (what EncodeLogRecord produces)
+//@ spec func isRec(a intarr, o int, l int) bool = l >= 1 && recN1(a, o, l) >= 1 && recK(a, o, l) >= 0 && recN2(a, o, l) >= 1 && recV(a, o, l) >= 0 && recN3(a, o, l) >= 1 && l == 1 + recN1(a, o, l) + recN2(a, o, l) + recN3(a, o, l) + recK(a, o, l) + recV(a, o, l)
+//@ spec func hintHdr(a intarr, o int, l int) int = uvn(a, o, l) + uvn(a, o + uvn(a, o, l), l - uvn(a, o, l))
+// the bytes are the encoding of one hint record: four uvarints, then the key
+//@ spec func hN1(a intarr, o int, l int) int = uvn(a, o, l)
+//@ spec func hN2(a intarr, o int, l int) int = uvn(a, o + hN1(a, o, l), l - hN1(a, o, l))
+//@ spec func hN3(a intarr, o int, l int) int = uvn(a, o + hN1(a, o, l) + hN2(a, o, l), l - hN1(a, o, l) - hN2(a, o, l))
+//@ spec func hN4(a intarr, o int, l int) int = uvn(a, o + hN1(a, o, l) + hN2(a, o, l) + hN3(a, o, l), l - hN1(a, o, l) - hN2(a, o, l) - hN3(a, o, l))
+//@ spec func isHint(a intarr, o int, l int) bool = hN1(a, o, l) >= 1 && hN2(a, o, l) >= 1 && hN3(a, o, l) >= 1 && hN4(a, o, l) >= 1 && hN1(a, o, l) + hN2(a, o, l) + hN3(a, o, l) + hN4(a, o, l) <= l
+
+// ---------------------------------------------------------------------------------------------
+// Writer
+// ---------------------------------------------------------------------------------------------
+
+//@ func (*datafile.DataFile).writeToBuf
+//@   props C11 C01 C02 C03
+//@   requires [hdr]      len(df.headerBuf) == 7
+//@   requires [blocklen] blockLen < 32768
+//@   requires [blockid]  blockID <= 2147483648
+//@   requires [len-fits] len(data) < 2147483648
+//@   requires [sep]      arr(buf.B) == 0 || arr(buf.B) != arr(df.headerBuf)
+//@   let off0 = startOff(blockLen)
+//@   let n = chunks(len(data), off0)
+//@   ensures [pos-fresh] result0 != nil && fresh(result0)
+//@   ensures [pos]       result0.Fid == df.ID && result0.BlockID == blockID + (padOf(blockLen) > 0 ? 1 : 0) && result0.Offset == off0
+//@   ensures [size]      result0.Size == 7 * n + len(data)
+//@   ensures [advance]   result1 * 32768 + result2 == blockID * 32768 + blockLen + padOf(blockLen) + 7 * n + len(data) && result2 < 32768
+//@   ensures [appended]  len(buf.B) == old(len(buf.B)) + padOf(blockLen) + 7 * n + len(data)
+//@   ensures [buf-own]   arr(buf.B) == old(arr(buf.B)) || fresh(buf.B)
+//@   ensures [hdr-kept]  len(df.headerBuf) == 7
+//@   modifies buf.B, buf.B[*], df.headerBuf[*]
+//@   loop 1
+//@     invariant [progress] writtenSize == written(chunkCount, len(data), off0) && chunkCount <= n && totalSize == len(data)
+//@     invariant [not-done] chunkCount == 0 || written(chunkCount - 1, len(data), off0) < len(data)
+//@     invariant [start]    nextSize == off0 && nextID == blockID + (padOf(blockLen) > 0 ? 1 : 0)
+//@     invariant [buflen]   len(buf.B) == old(len(buf.B)) + padOf(blockLen) + 7 * chunkCount + writtenSize
+//@     invariant [hdr]      len(df.headerBuf) == 7
+//@     invariant [buf-own]  arr(buf.B) == old(arr(buf.B)) || fresh(buf.B)
+//@     decreases len(data) - writtenSize
+
+// ---------------------------------------------------------------------------------------------
+// Chunk decoding: safe for every byte slice; a value is only returned after the checksum matched
+// ---------------------------------------------------------------------------------------------
+
+//@ func datafile.DecodeChunk
+//@   props C12 C11 C03
+//@   pure
+//@   ensures [short-is-error] len(block) < 7 ==> result2 != nil
+//@   ensures [data]      result2 == nil ==> arr(result0) == arr(block) && off(result0) == off(block) + 7 && 7 + len(result0) <= len(block) && len(result0) == le16(content(block), off(block) + 4)
+//@   ensures [type]      result2 == nil ==> result1 == block[6]
+//@   ensures [verified]  result2 == nil ==> le32(content(block), off(block)) == crc(block, 4, 7 + len(result0))
+//@   ensures [incomplete] result2 == ErrIncompleteChunk <==> (len(block) < 7 || 7 + le16(content(block), off(block) + 4) > len(block) % 4294967296)
+//@   ensures [complete]  len(block) < 4294967296 && len(block) >= 7 && 7 + le16(content(block), off(block) + 4) <= len(block) && le32(content(block), off(block)) == crc(block, 4, 7 + le16(content(block), off(block) + 4)) ==> result2 == nil
+//@   ensures [err-no-data] result2 != nil ==> result0 == nil
+//@   ensures [error-kinds] result2 == nil || result2 == ErrInvalidCRC || result2 == ErrIncompleteChunk
+
+// ---------------------------------------------------------------------------------------------
+// Readers
+// ---------------------------------------------------------------------------------------------
+
+//@ func (*datafile.DataReader).next
+//@   props C11 C12 C02 C03
+//@   requires [inv-reader] len(reader.blockBuf) == 32768 && reader.offset + 7 < 32768
+//@   requires [inv-df]     reader.dataFile != nil && reader.dataFile.ReadWriter != nil && reader.dataFile.lastBlockSize < 32768 && reader.dataFile.lastBlockID <= 1073741824
+//@   requires [pos-bound]  reader.blockID <= reader.dataFile.lastBlockID + 1
+//@   requires [inv-df-size] reader.dataFile.lastBlockID * 32768 + reader.dataFile.lastBlockSize == reader.dataFile.ReadWriter.size
+//@   let fsz = reader.dataFile.lastBlockID * 32768 + reader.dataFile.lastBlockSize
+//@   let abs0 = old(reader.blockID) * 32768 + old(reader.offset)
+//@   ensures [eof-exact]    abs0 >= fsz ==> result2 == io.EOF
+//@   ensures [torn-header]  abs0 < fsz && abs0 + 7 > fsz ==> result2 == io.EOF
+//@   ensures [inv-kept]     len(reader.blockBuf) == 32768 && (result2 == nil ==> reader.offset + 7 < 32768 && reader.blockID <= reader.dataFile.lastBlockID + 1)
+//@   ensures [pos]          result2 == nil ==> result1 != nil && fresh(result1) && result1.Fid == reader.dataFile.ID && result1.BlockID == old(reader.blockID) && result1.Offset == old(reader.offset)
+//@   ensures [advances]     result2 == nil ==> reader.blockID * 32768 + reader.offset > abs0
+//@   ensures [err-no-data]  result2 != nil ==> result1 == nil && len(result0) == 0
+//@   ensures [res-own]      len(result0) == 0 || fresh(result0)
+//@   ensures [foreign-errors] !engineErr(result2)
+//@   assume  [crc-authenticates-log-payload]  result2 == nil && reader.dataFile.kind == DataFileSuffix ==> isRec(content(result0), off(result0), len(result0))
+//@   assume  [crc-authenticates-hint-payload] result2 == nil && reader.dataFile.kind == HintFileSuffix ==> isHint(content(result0), off(result0), len(result0))
+//@   modifies reader.blockID, reader.offset, reader.blockBuf[*]
+//@   loop 1
+//@     invariant [walk]   reader.blockID == old(reader.blockID) + cnt && (cnt == 0 ==> reader.offset == old(reader.offset)) && (cnt > 0 ==> reader.offset == 0)
+//@     invariant [bound]  reader.blockID <= reader.dataFile.lastBlockID + 1 && cnt <= reader.dataFile.lastBlockID + 1
+//@     invariant [buf]    len(reader.blockBuf) == 32768
+//@     invariant [pos]    pos.Fid == reader.dataFile.ID && pos.BlockID == old(reader.blockID) && pos.Offset == old(reader.offset)
+//@     invariant [res-own] arr(res) == 0 || fresh(res)
+
+//@ func (*datafile.DataFile).readToBuf
+//@   props C11 C12 C01
+//@   requires [inv-df]  df.ReadWriter != nil && df.lastBlockSize < 32768 && df.lastBlockID <= 1073741824
+//@   requires [offset]  offset < 32768
+//@   ensures [buf-own]  arr(buf.B) == old(arr(buf.B)) || fresh(buf.B)
+//@   ensures [foreign-errors] !engineErr(result)
+//@   assume  [crc-authenticates-log-payload] result == nil && df.kind == DataFileSuffix && old(len(buf.B)) == 0 ==> isRec(content(buf.B), off(buf.B), len(buf.B))
+//@   modifies buf.B, buf.B[*]
+//@   loop 1
+//@     invariant [bound]   blockID <= df.lastBlockID + 1 && offset < 32768
+//@     invariant [block]   len(block) == 32768
+//@     invariant [buf-own] arr(buf.B) == old(arr(buf.B)) || fresh(buf.B)
+
+//@ pool datafile.blockPool []byte
+//@ poolinv [block-sized] len(x) == 32768
+
+//@ func (*datafile.DataFile).Size
+//@   inline
+//@ func datafile.getBuf
+//@   inline
+//@ func datafile.putBuf
+//@   inline
+
+// ---------------------------------------------------------------------------------------------
+// Representation invariants
+// ---------------------------------------------------------------------------------------------
+
+// logical size (lastBlockID, lastBlockSize) equals the physical size of the ReadWriter
+//@ pred INV_df(df) = df != nil && df.ReadWriter != nil && len(df.headerBuf) == 7 && df.lastBlockSize < 32768 && df.lastBlockID * 32768 + df.lastBlockSize == df.ReadWriter.size && df.ReadWriter.size <= 35184372088832 && (df.closed ==> df.ReadWriter.closed)
+// the sequential reader is always at a normalised position inside or just past the file
+//@ pred INV_reader(r) = r != nil && len(r.blockBuf) == 32768 && r.offset + 7 < 32768 && INV_df(r.dataFile) && r.blockID <= r.dataFile.lastBlockID + 1
+
+//@ func datafile.OpenFile
+//@   props C11 C02 C13
+//@   ensures [inv-df]  result1 == nil ==> INV_df(result0) && fresh(result0) && result0.ID == id && !result0.closed
+//@   assume  [ghost-kind] result1 == nil ==> result0.kind == suffix
+//@   ensures [durable] result1 == nil ==> result0.ReadWriter.durable == result0.ReadWriter.size && fresh(result0.ReadWriter) && len(result0.bufferedWrites) == 0 && fresh(result0.headerBuf) && result0.ReadWriter.writes == 0
+//@   ensures [err]     result1 != nil ==> result0 == nil
+//@   ensures [foreign-errors] !engineErr(result1)
+//@   modifies nothing
+
+//@ func datafile.GetFileName
+//@   trusted
+//@   pure
+
+// ---------------------------------------------------------------------------------------------
+// Record codecs
+// ---------------------------------------------------------------------------------------------
+
+//@ func datafile.EncodeLogRecord
+//@   props C11 C12
+//@   requires [rec]    logRecord != nil && buf != nil
+//@   requires [header] len(header) >= 21
+//@   requires [sizes]  len(logRecord.Key) < 2147483648 && len(logRecord.Value) < 2147483648
+//@   requires [sep]    arr(buf.B) == 0 || arr(buf.B) != arr(header)
+//@   ensures [len]     len(buf.B) == old(len(buf.B)) + 1 + vlen(len(logRecord.Key)) + vlen(len(logRecord.Value)) + uvlen(logRecord.BatchID) + len(logRecord.Key) + len(logRecord.Value)
+//@   ensures [buf-own] arr(buf.B) == old(arr(buf.B)) || fresh(buf.B)
+//@   modifies header[*], buf.B, buf.B[*]
+
+//@ func datafile.DecodeLogRecord
+//@   props C11 C12 C15
+//@   requires [sealed] isRec(content(data), off(data), len(data))
+//@   ensures [fields]  result != nil && fresh(result) && result.Type == data[0] && len(result.Key) == recK(content(data), off(data), len(data)) && len(result.Value) == recV(content(data), off(data), len(data)) && result.BatchID == recB(content(data), off(data), len(data))
+//@   ensures [private-copies] (len(result.Key) > 0 ==> fresh(result.Key)) && (len(result.Value) > 0 ==> fresh(result.Value)) && (len(result.Key) == 0 ==> result.Key == nil) && (len(result.Value) == 0 ==> result.Value == nil)
+//@   modifies nothing
+
+//@ func datafile.DecodeLogRecordValue
+//@   props C11 C12 C15
+//@   requires [sealed] isRec(content(data), off(data), len(data))
+//@   ensures [len]     len(result) == recV(content(data), off(data), len(data))
+//@   ensures [private-copy] len(result) > 0 ==> fresh(result)
+//@   ensures [empty-is-nil] len(result) == 0 ==> result == nil
+//@   modifies nothing
+
+//@ func datafile.EncodeHintRecord
+//@   props C11 C18
+//@   requires [args]   pos != nil && buf != nil
+//@   requires [hintpos] len(hintPos) >= 25
+//@   requires [sep]    arr(buf.B) == 0 || arr(buf.B) != arr(hintPos)
+//@   ensures [len]     len(buf.B) == old(len(buf.B)) + uvlen(pos.Fid) + uvlen(pos.BlockID) + uvlen(pos.Offset) + uvlen(pos.Size) + len(key)
+//@   ensures [buf-own] arr(buf.B) == old(arr(buf.B)) || fresh(buf.B)
+//@   modifies hintPos[*], buf.B, buf.B[*]
+
+//@ func datafile.DecodeHintRecord
+//@   props C11 C12 C18
+//@   requires [sealed] isHint(content(buf), off(buf), len(buf))
+//@   let hl = hN1(content(buf), off(buf), len(buf)) + hN2(content(buf), off(buf), len(buf)) + hN3(content(buf), off(buf), len(buf)) + hN4(content(buf), off(buf), len(buf))
+//@   ensures [key]     arr(result0) == arr(buf) && off(result0) == off(buf) + hl && len(result0) == len(buf) - hl
+//@   ensures [pos]     result1 != nil && fresh(result1)
+//@   modifies nothing
+
+// GetLogRecordDiskSize is an upper bound on the bytes a record of these sizes occupies (padding of the
+// previous block tail + chunk headers + encoded record), for every start position; the estimate stops
+// being an upper bound for key+value near 153 MB, hence the explicit bound of 128 MiB.
+//@ func datafile.GetLogRecordDiskSize
+//@   props C11 C17
+//@   requires [sizes] 0 <= keySize && 0 <= valueSize && keySize + valueSize <= 134217728
+//@   ensures [value]  result == 21 + keySize + valueSize + 10 + 1 + 7 + ((21 + keySize + valueSize + 10 + 1) / 32768 + 1) * 7
+//@   ensures [upper-bound] forall bl, t :: {occupied(t, bl)} 0 <= bl && bl < 32768 && 0 <= t && t <= 21 + keySize + valueSize ==> result >= occupied(t, bl)
+//@   modifies nothing
+
+// ---------------------------------------------------------------------------------------------
+// Appending
+// ---------------------------------------------------------------------------------------------
+
+//@ func (*datafile.DataFile).writeSingle
+//@   props C11 C01 C02 C03 C13
+//@   requires [inv-df] INV_df(df)
+//@   requires [data]   data != nil && len(data.B) < 2147483648 && (arr(data.B) == 0 || arr(data.B) != arr(df.headerBuf))
+//@   let bl = old(df.lastBlockSize)
+//@   let occ = occupied(len(data.B), bl)
+//@   ensures [inv-df]  INV_df(df)
+//@   ensures [pos]     result1 == nil ==> result0 != nil && fresh(result0) && result0.Fid == df.ID && result0.BlockID == old(df.lastBlockID) + (padOf(bl) > 0 ? 1 : 0) && result0.Offset == startOff(bl) && result0.Size == 7 * chunks(old(len(data.B)), startOff(bl)) + old(len(data.B))
+//@   ensures [one-write] result1 == nil ==> df.ReadWriter.size == old(df.ReadWriter.size) + occupied(old(len(data.B)), bl)
+//@   ensures [err]     result1 != nil ==> result0 == nil && df.ReadWriter.size == old(df.ReadWriter.size) && df.lastBlockID == old(df.lastBlockID) && df.lastBlockSize == old(df.lastBlockSize)
+//@   ensures [durable-kept] df.ReadWriter.durable == old(df.ReadWriter.durable)
+//@   ensures [one-write-call] df.ReadWriter.writes == old(df.ReadWriter.writes) + 1
+//@   ensures [foreign-errors] !engineErr(result1)
+//@   modifies df.lastBlockID, df.lastBlockSize, df.headerBuf[*], df.ReadWriter.size, df.ReadWriter.data, df.ReadWriter.writes
+
+// every staged buffer is a live, reasonably sized buffer that does not share storage with the chunk header buffer
+//@ pred stagedOK(df) = forall i :: {df.bufferedWrites[i]} 0 <= i && i < len(df.bufferedWrites) ==> df.bufferedWrites[i] != nil && len(df.bufferedWrites[i].B) < 2147483648 && (arr(df.bufferedWrites[i].B) == 0 || arr(df.bufferedWrites[i].B) != arr(df.headerBuf))
+
+//@ func (*datafile.DataFile).writeAll
+//@   props C11 C03 C04
+//@   content
+//@   requires [inv-df]  INV_df(df)
+//@   requires [records] forall i :: {records[i]} 0 <= i && i < len(records) ==> records[i] != nil && len(records[i].B) < 2147483648 && (arr(records[i].B) == 0 || arr(records[i].B) != arr(df.headerBuf))
+//@   ensures [inv-df]   INV_df(df)
+//@   ensures [count]    result1 == nil ==> len(result0) == len(records)
+//@   ensures [positions] result1 == nil ==> (forall j :: {result0[j]} 0 <= j && j < len(result0) ==> result0[j] != nil && fresh(result0[j]) && result0[j].Fid == df.ID && result0[j].Offset < 32768)
+//@   ensures [one-write-call] df.ReadWriter.writes == old(df.ReadWriter.writes) + 1
+//@   ensures [err]      result1 != nil ==> len(result0) == 0 && df.ReadWriter.size == old(df.ReadWriter.size) && df.lastBlockID == old(df.lastBlockID) && df.lastBlockSize == old(df.lastBlockSize)
+//@   ensures [foreign-errors] !engineErr(result1)
+//@   ensures [durable-kept] df.ReadWriter.durable == old(df.ReadWriter.durable)
+//@   modifies df.lastBlockID, df.lastBlockSize, df.headerBuf[*], df.ReadWriter.size, df.ReadWriter.data, df.ReadWriter.writes
+//@   loop 1
+//@     invariant [acc]     nextID * 32768 + nextSize == df.lastBlockID * 32768 + df.lastBlockSize + len(buf.B) && nextSize < 32768
+//@     invariant [df-kept] INV_df(df) && df.lastBlockID == old(df.lastBlockID) && df.lastBlockSize == old(df.lastBlockSize) && df.ReadWriter == old(df.ReadWriter) && df.ReadWriter.size == old(df.ReadWriter.size) && df.ReadWriter.writes == old(df.ReadWriter.writes) && df.ReadWriter.durable == old(df.ReadWriter.durable) && arr(df.headerBuf) == old(arr(df.headerBuf))
+//@     invariant [index]   0 - 1 <= rangeindex && rangeindex <= len(records) - 1 && len(recordPos) == rangeindex + 1
+//@     invariant [positions] forall j :: {recordPos[j]} 0 <= j && j < len(recordPos) ==> recordPos[j] != nil && fresh(recordPos[j]) && recordPos[j].Fid == df.ID && recordPos[j].Offset < 32768
+//@     invariant [buf-own] buf != nil && fresh(buf) && (arr(buf.B) == 0 || fresh(buf.B)) && (arr(recordPos) == 0 || fresh(recordPos))
+
+//@ func (*datafile.DataFile).WriteStagedLogRecord
+//@   props C11 C04
+//@   content
+//@   requires [inv-df] INV_df(df) && stagedOK(df)
+//@   requires [rec]    logRecord != nil && len(logRecord.Key) + len(logRecord.Value) <= 1073741824
+//@   requires [header] len(header) >= 21 && arr(header) != arr(df.headerBuf)
+//@   ensures [staged]  !old(df.closed) ==> len(df.bufferedWrites) == old(len(df.bufferedWrites)) + 1
+//@   ensures [closed]  old(df.closed) ==> len(df.bufferedWrites) == old(len(df.bufferedWrites))
+//@   ensures [staged-ok] stagedOK(df) && INV_df(df)
+//@   ensures [nothing-written] df.ReadWriter.size == old(df.ReadWriter.size) && df.ReadWriter.writes == old(df.ReadWriter.writes)
+//@   modifies df.bufferedWrites, df.bufferedWrites[*], header[*]
+
+//@ func (*datafile.DataFile).FlushStaged
+//@   props C11 C03 C04
+//@   requires [inv-df] INV_df(df) && stagedOK(df)
+//@   ensures [inv-df]  INV_df(df)
+//@   ensures [count]   result1 == nil ==> len(result0) == old(len(df.bufferedWrites)) && len(df.bufferedWrites) == 0
+//@   ensures [positions] result1 == nil ==> (forall j :: {result0[j]} 0 <= j && j < len(result0) ==> result0[j] != nil && fresh(result0[j]) && result0[j].Fid == df.ID && result0[j].Offset < 32768)
+//@   ensures [one-write-call] df.ReadWriter.writes == old(df.ReadWriter.writes) + 1
+//@   ensures [err]     result1 != nil ==> len(result0) == 0 && df.ReadWriter.size == old(df.ReadWriter.size)
+//@   ensures [foreign-errors] !engineErr(result1)
+//@   ensures [durable-kept] df.ReadWriter.durable == old(df.ReadWriter.durable)
+//@   modifies df.lastBlockID, df.lastBlockSize, df.headerBuf[*], df.ReadWriter.size, df.ReadWriter.data, df.ReadWriter.writes, df.bufferedWrites
+
+//@ func (*datafile.DataFile).WriteLogRecord
+//@   props C11 C01 C02 C03 C13
+//@   requires [inv-df] INV_df(df)
+//@   requires [rec]    logRecord != nil && len(logRecord.Key) + len(logRecord.Value) <= 1073741824
+//@   requires [header] len(header) >= 21 && arr(header) != arr(df.headerBuf)
+//@   let total = 1 + vlen(len(logRecord.Key)) + vlen(len(logRecord.Value)) + uvlen(logRecord.BatchID) + len(logRecord.Key) + len(logRecord.Value)
+//@   let bl = old(df.lastBlockSize)
+//@   ensures [inv-df]  INV_df(df)
+//@   ensures [closed]  old(df.closed) ==> result1 == ErrClosed && result0 == nil
+//@   ensures [pos]     result1 == nil ==> result0 != nil && fresh(result0) && result0.Fid == df.ID && result0.BlockID == old(df.lastBlockID) + (padOf(bl) > 0 ? 1 : 0) && result0.Offset == startOff(bl) && result0.Size == 7 * chunks(total, startOff(bl)) + total
+//@   ensures [one-write] result1 == nil ==> df.ReadWriter.size == old(df.ReadWriter.size) + occupied(total, bl)
+//@   ensures [err]     result1 != nil ==> result0 == nil && df.ReadWriter.size == old(df.ReadWriter.size)
+//@   ensures [durable-kept] df.ReadWriter.durable == old(df.ReadWriter.durable)
+//@   ensures [one-write-call] df.ReadWriter.writes == old(df.ReadWriter.writes) + (old(df.closed) ? 0 : 1)
+//@   ensures [foreign-errors] !engineErr(result1)
+//@   modifies df.lastBlockID, df.lastBlockSize, df.headerBuf[*], df.ReadWriter.size, df.ReadWriter.data, df.ReadWriter.writes, header[*]
+
+//@ func (*datafile.DataFile).WriteHintRecord
+//@   props C11 C18
+//@   requires [inv-df] INV_df(df)
+//@   requires [args]   pos != nil && len(key) < 1073741824 && len(hintPos) >= 25 && arr(hintPos) != arr(df.headerBuf)
+//@   ensures [inv-df]  INV_df(df)
+//@   ensures [one-write] result == nil ==> df.ReadWriter.size == old(df.ReadWriter.size) + occupied(uvlen(pos.Fid) + uvlen(pos.BlockID) + uvlen(pos.Offset) + uvlen(pos.Size) + len(key), old(df.lastBlockSize))
+//@   modifies df.lastBlockID, df.lastBlockSize, df.headerBuf[*], df.ReadWriter.size, df.ReadWriter.data, df.ReadWriter.writes, hintPos[*]
+
+//@ func (*datafile.DataFile).ReadRecordValue
+//@   props C11 C12 C01 C15
+//@   requires [inv-df] INV_df(df)
+//@   requires [pos]    logRecordPos != nil && logRecordPos.Offset < 32768
+//@   requires [kind]   df.kind == DataFileSuffix
+//@   ensures [closed]  old(df.closed) ==> result1 == ErrClosed
+//@   ensures [err-no-value] result1 != nil ==> result0 == nil
+//@   ensures [private-copy] len(result0) > 0 ==> fresh(result0)
+//@   ensures [foreign-errors] !engineErr(result1)
+//@   modifies nothing
+
+//@ func (*datafile.DataReader).NextLogRecord
+//@   props C11 C12 C02 C03
+//@   requires [inv-reader] INV_reader(reader)
+//@   requires [kind]   reader.dataFile.kind == DataFileSuffix
+//@   let fsz = reader.dataFile.lastBlockID * 32768 + reader.dataFile.lastBlockSize
+//@   let abs0 = old(reader.blockID) * 32768 + old(reader.offset)
+//@   ensures [inv-reader] result2 == nil ==> INV_reader(reader)
+//@   ensures [eof-exact] !reader.dataFile.closed && abs0 >= fsz ==> result2 == io.EOF
+//@   ensures [record]  result2 == nil ==> result0 != nil && fresh(result0) && result1 != nil && fresh(result1) && result1.Fid == reader.dataFile.ID && result1.BlockID == old(reader.blockID) && result1.Offset == old(reader.offset)
+//@   ensures [err]     result2 != nil ==> result0 == nil && result1 == nil
+//@   ensures [foreign-errors] !engineErr(result2)
+//@   modifies reader.blockID, reader.offset, reader.blockBuf[*]
+
+//@ func (*datafile.DataReader).NextHintRecord
+//@   props C11 C12 C18
+//@   requires [inv-reader] INV_reader(reader)
+//@   requires [kind]   reader.dataFile.kind == HintFileSuffix
+//@   ensures [inv-reader] result2 == nil ==> INV_reader(reader)
+//@   ensures [record]  result2 == nil ==> result1 != nil && fresh(result1) && (len(result0) == 0 || fresh(result0))
+//@   ensures [err]     result2 != nil ==> result1 == nil && len(result0) == 0
+//@   ensures [foreign-errors] !engineErr(result2)
+//@   modifies reader.blockID, reader.offset, reader.blockBuf[*]
+
+//@ func (*datafile.DataFile).NewReader
+//@   inline
+//@ func (*datafile.DataFile).Sync
+//@   inline
+//@ func (*datafile.DataFile).Close
+//@   inline
